@@ -218,6 +218,25 @@ func gen(g *vh.Gen) {
 			g.Emit("scan", st, fmt.Sprint(p), b, "-", c)
 		}
 	}
+	// arrival time, not the mail's own Date: header, is what retention goes by: mail delivered through the real
+	// StoreManager.Deliver with Date headers days / years in the past, in the future, missing or garbled
+	hdrDates := []string{"-86400", "-31536000", "-3600", "-30", "0", "40", "86400", "315360000", "x", "g", "-7", "7200"}
+	for i := 0; i < g.N(12, 300); i++ {
+		n := 2 + g.Intn(5)
+		ds := make([]string, n)
+		for j := range ds {
+			ds[j] = hdrDates[g.Intn(len(hdrDates))]
+		}
+		st := g.Pick("mem", "file")
+		if i%4 == 3 {
+			// a period of 1 s and 3 s of waiting: every one of them has arrived more than a period ago and must go,
+			// a Date header in the future protects nothing
+			g.Emit("dlv", st, "1", "3", strings.Join(ds, ","))
+		} else {
+			// just arrived: must survive whatever the Date header says
+			g.Emit("dlv", st, fmt.Sprint(g.Pick2(5, 60, 3600, 86400)), "0", strings.Join(ds, ","))
+		}
+	}
 	// the run loop: disabled for period <= 0; exits on cancel; Join returns
 	for i := 0; i < g.N(6, 60); i++ {
 		b, _, _ := boxes(g, 0, 1+g.Intn(3))
